@@ -63,6 +63,12 @@ class C13(InvProp):
         return [dict(c) for c in CLAUSES] + super().corpus()
 
     def cases(self, tier, seed):
+        # inventories larger than any chunk size an index builder might use (shared classes across all nodes)
+        for j, n in enumerate([520, 700, 1100] if tier == "quick" else [520, 700, 1100, 2100, 4200]):
+            c = GI2.scale_inventory(Rng(seed, "C13:scale", j), tier, kind="many_nodes", n_nodes=n, failing=(j % 2 == 1 and n != 700))
+            yield c
+        for j in range(6 if tier == "quick" else 60):
+            yield GI2.scale_inventory(Rng(seed, "C13:scale2", j), tier)
         N = 200 if tier == "quick" else 5000
         for i in range(N):
             r = Rng(seed, "C13", i)
